@@ -1,13 +1,209 @@
 /-
 Driver, part 3: pure-function records (`fn` lines): stdlib conformance, serialiser, parser,
-format, equality; with the property monitors.
+format, equality; with the property monitors (messages starting with "SPEC" are property
+violations judged by the specification side, the others are model/implementation differences).
 -/
 import Anytype.Driver.Exec
+import Anytype.Spec.Equiv
 namespace Anytype.Driver
 open Anytype Std
 
+def errName : PErrKind → String
+  | .notUtf8 => "notUtf8" | .unexpectedEnd => "unexpectedEnd" | .invalidValue => "invalidValue"
+  | .expectQuote => "expectQuote" | .expectColon => "expectColon" | .expectCommaBrace => "expectCommaBrace"
+  | .missingBracket => "missingBracket" | .io => "io" | .fuel => "fuel"
+
+inductive PObs
+  | ok (v : JVal)
+  | err (kind : String) (line : Option Nat)
+  | other (s : String)
+
+def parsePObs (s : String) : PObs :=
+  match splitTokens s with
+  | "ok" :: rest => match parseJVal rest with
+    | some (v, []) => .ok v
+    | _ => .other ("unparsable " ++ s)
+  | ["err", k, l] => .err k l.toNat?
+  | _ => .other s
+
+def showPRes : Except PErr JVal → String
+  | .ok v => "ok " ++ jvalTok v
+  | .error e => s!"err {errName e.kind} {match e.line with | some l => toString l | none => "-"}"
+
+def cmpParse (what : String) (model : Except PErr JVal) (obs : PObs) : M Unit :=
+  match model, obs with
+  | .ok v, .ok w => if jeqCanon v w then pure () else fail s!"{what}: model {showPRes model} observed ok {jvalTok w}"
+  | .error e, .err k l => if errName e.kind == k && e.line == l then pure () else fail s!"{what}: model {showPRes model} observed err {k} {l}"
+  | _, .other s => fail s!"SPEC C04 {what}: outcome is not (container, nil) or (nil, error): {s}"
+  | .ok _, .err k l => fail s!"{what}: model {showPRes model} observed err {k} {l}"
+  | .error _, .ok w => fail s!"{what}: model {showPRes model} observed ok {jvalTok w}"
+
+def modelParse (root : String) (bs : List UInt8) : Except PErr JVal :=
+  if root == "L" then parseListBytes bs else parseObjectBytes bs
+
+def rootMatches (root : String) : JVal → Bool
+  | .list _ => root == "L"
+  | .obj _ => root != "L"
+  | _ => false
+
+def treeArg (s : String) : M JVal :=
+  match parseJVal (splitTokens s) with
+  | some (v, []) => pure v
+  | _ => fail s!"protocol: bad tree {s}"
+
+def bytesArg (s : String) : M (List UInt8) :=
+  match hexToBytes s with
+  | some b => pure b
+  | none => fail "protocol: bad hex"
+
+def showStr (s : Str) : String := String.ofList s
+
+/-- C02 monitor + model comparison for a serialised text -/
+def checkSer (tree : JVal) (text : Str) : M Unit := do
+  match Strict.decode text with
+  | .ok t _ =>
+    if !jeqCanon t tree then fail s!"SPEC C02: an RFC 8259 decoder reads other data: {jvalTok (canon t)} instead of {jvalTok (canon tree)}"
+    if ser t != text then fail s!"ser: model prints {showStr (ser t)} observed {showStr text}"
+  | _ => fail s!"SPEC C02: String() is not valid RFC 8259 JSON: {showStr text}"
+
 def execFn (name : String) (fields : List String) : M Unit := do
-  match name with
-  | _ => fail s!"protocol: unknown fn {name} {fields.length}"
+  match name, fields with
+  -- ---------------- stdlib conformance
+  | "pint", [hx, obs] =>
+    let bs ← bytesArg hx
+    let m := match bytesToStr bs with | some s => (parseIntBase0 s).map intTok | none => none
+    let ms := match m with | some t => "ok " ++ t | none => "err"
+    if ms != obs then fail s!"strconv.ParseInt: model {ms} observed {obs}"
+  | "pfloat", [hx, obs] =>
+    let bs ← bytesArg hx
+    let m := match bytesToStr bs with | some s => (F64.parseFloat s).map floatTok | none => none
+    let ms := match m with | some t => "ok " ++ t | none => "err"
+    if ms != obs then fail s!"strconv.ParseFloat: model {ms} observed {obs}"
+  | "pbool", [hx, obs] =>
+    let bs ← bytesArg hx
+    let m := match bytesToStr bs with | some s => (parseBool s).map boolTok | none => none
+    let ms := match m with | some t => "ok " ++ t | none => "err"
+    if ms != obs then fail s!"strconv.ParseBool: model {ms} observed {obs}"
+  | "ffloat", [d, e, f] =>
+    match (d.drop 1).toString |> hexToNat with
+    | some n =>
+      let x : F64 := ⟨UInt64.ofNat n⟩
+      let me := strTok (F64.fmtE x)
+      let mf := strTok (F64.fmtF x)
+      if me != e then fail s!"strconv.FormatFloat 'e': model {showStr (F64.fmtE x)} observed {e}"
+      if mf != f then fail s!"strconv.FormatFloat 'f': model {showStr (F64.fmtF x)} observed {f}"
+      -- the hypotheses of FmtContract, tested on every float that passes by
+      if x.isFinite then
+        if F64.parseFloat (serF x) != some x then fail s!"FmtContract.parse_back fails for {d}"
+        if (parseIntBase0 (serF x)).isSome then fail s!"FmtContract.not_int fails for {d}"
+    | none => fail "protocol"
+  | "itoa", [i, obs] =>
+    let v ← intArg i
+    if strTok (itoa v) != obs then fail s!"strconv.Itoa: model {showStr (itoa v)} observed {obs}"
+  | "isspace", [cp, obs] =>
+    match cp.toNat? with
+    | some n => if boolTok (isSpace (Char.ofNat n)) != obs then fail s!"unicode.IsSpace({n}): model {isSpace (Char.ofNat n)} observed {obs}"
+    | none => fail "protocol"
+  | "utf8", [hx, obs] =>
+    let bs ← bytesArg hx
+    let m := " ".intercalate ((decodeAll bs).map (fun it => match it with | some c => toString c.toNat | none => "x"))
+    -- only the prefix up to and including the first ill-formed item matters to the parser
+    let cut (s : String) : List String :=
+      let ts := splitTokens s
+      ts.takeWhile (· ≠ "x") ++ (if ts.contains "x" then ["x"] else [])
+    if cut m != cut obs then fail s!"utf8.DecodeRune: model {m} observed {obs}"
+  | "f32", [g, obs] =>
+    match (g.drop 1).toString |> hexToNat with
+    | some n => if floatTok (f32to64 (UInt32.ofNat n)) != obs then fail s!"float64(float32): model {floatTok (f32to64 (UInt32.ofNat n))} observed {obs}"
+    | none => fail "protocol"
+  -- ---------------- serialiser
+  | "ser", [tree, text] =>
+    let t ← treeArg tree
+    checkSer t (← strArg text)
+  -- ---------------- round trip
+  | "rt", [root, tree, text, pres, eq, pres2] =>
+    let t ← treeArg tree
+    let tx ← strArg text
+    checkSer t tx
+    let obs := parsePObs pres
+    cmpParse "parse(String())" (modelParse root (encode tx)) obs
+    match obs with
+    | .ok w =>
+      if !jeqCanon w t then fail s!"SPEC C01: round trip changed the data: {jvalTok (canon w)} instead of {jvalTok (canon t)}"
+      if eq != "t" then fail "SPEC C01: the re-parsed container does not Equal the original"
+      match parsePObs pres2 with
+      | .ok w2 => if !jeqCanon w2 t then fail "SPEC C01: second round trip changed the data"
+      | _ => fail s!"SPEC C01: second round trip failed: {pres2}"
+    | .err k l => fail s!"SPEC C01: ParseX(x.String()) failed: {k} {l}"
+    | .other s => fail s!"SPEC C01: {s}"
+  -- ---------------- parser
+  | "parse", [root, hx, pres, expect] =>
+    let bs ← bytesArg hx
+    let obs := parsePObs pres
+    let model := modelParse root bs
+    -- monitors first: they judge the implementation against the specification
+    match obs with
+    | .other s => fail s!"SPEC C04: outcome is not exclusive / not deterministic / a panic: {s}"
+    | _ => pure ()
+    if expect == "err" then
+      match obs with
+      | .ok w => fail s!"SPEC C04: a truncated or ill-encoded document was accepted as {jvalTok w}"
+      | _ => pure ()
+    if expect.startsWith "line:" then
+      match (expect.drop 5).toString.toNat?, obs with
+      | some n, .err _ (some l) => if l != n then fail s!"SPEC C20: error cites line {l}, the error is on line {n}"
+      | some _, .err _ none => pure ()
+      | some _, .ok w => fail s!"SPEC C20: document with an injected syntax error was accepted as {jvalTok w}"
+      | _, _ => pure ()
+    -- C03: every RFC 8259 document with the right root is read as the reference decoder reads it
+    match bytesToStr bs with
+    | some s =>
+      match Strict.decode s with
+      | .ok t _ =>
+        if rootMatches root t then
+          match obs with
+          | .ok w => if !jeqCanon w t then fail s!"SPEC C03: valid JSON read as {jvalTok (canon w)}, reference decoder reads {jvalTok (canon t)}"
+          | .err k l => fail s!"SPEC C03: valid JSON rejected: {k} {l}"
+          | _ => pure ()
+      | .dom => pure ()   -- valid JSON outside the properties' domain (number beyond float64 range, lone surrogate escape)
+      | .bad => if expect == "valid" then fail "protocol: generator claims validity but the strict decoder rejects" else pure ()
+    | none => pure ()
+    cmpParse "parse" model obs
+  | "file", [kind, hx, pres] =>
+    let bs ← bytesArg hx
+    let obs := parsePObs pres
+    let fs : String → Option (List UInt8) := fun _ => if kind == "bytes" then some bs else none
+    match obs with
+    | .other s => fail s!"SPEC C04: ParseFile: {s}"
+    | _ => cmpParse "parsefile" (parseFile fs "p") obs
+  -- ---------------- FormatString
+  | "fmt", [tree, n, obs] =>
+    let t ← treeArg tree
+    let n ← intArg n
+    match parseObs obs with
+    | .panic k =>
+      if 0 ≤ n ∧ n ≤ 10 then fail s!"SPEC C16: FormatString({n}) panicked: {k}"
+      else if k != "badIndent" then fail s!"fmt: unexpected panic {k}"
+    | .ok [tx] =>
+      let text ← strArg tx
+      if n < 0 ∨ n > 10 then fail s!"SPEC C16: FormatString({n}) did not panic"
+      if text.isEmpty then fail "SPEC C16: FormatString returned an empty text"
+      match Strict.decode text with
+      | .ok d _ =>
+        if !jeqCanon d t then fail "SPEC C16: FormatString denotes other data than the container"
+        if pretty n.toNat 0 d != text then fail s!"SPEC C16: not the canonical layout: {showStr text} expected {showStr (pretty n.toNat 0 d)}"
+        if !fmtMatches n.toNat t text then fail s!"fmt: model differs from observed {showStr text}"
+      | _ => fail s!"SPEC C16: FormatString is not valid JSON: {showStr text}"
+    | .ok _ => fail "protocol"
+  -- ---------------- Equals
+  | "equals", [ta, tb, ab, ba] =>
+    let a ← treeArg ta
+    let b ← treeArg tb
+    let spec := specEq a b
+    if boolTok spec != ab then fail s!"SPEC C07: a.Equals(b) = {ab}, typed structural equality says {spec}"
+    if boolTok (specEq b a) != ba then fail s!"SPEC C07: b.Equals(a) = {ba}, typed structural equality says {specEq b a}"
+    if boolTok (equalsJ a b) != ab then fail s!"equals: model {equalsJ a b} observed {ab}"
+    if boolTok (equalsJ b a) != ba then fail s!"equals: model {equalsJ b a} observed {ba}"
+  | _, _ => fail s!"protocol: unknown fn {name} with {fields.length} fields"
 
 end Anytype.Driver
